@@ -3,8 +3,8 @@ import json,sys
 d=json.load(open(sys.argv[1]))
 for r in d['results']:
     print(f"{r['harness']}: paths={r['paths']} dp={r['decision_points']} ended={r['ended']} ok_asrt={r['paths_ok_with_asserts']} asserts={r['asserts']}/{r['asserts_symbolic']} q={r['queries']} unk={r['unknown']} solver={r['solver_s']:.1f}s wall={r['wall_s']:.1f}s instr={r['instructions']} fns={len(r['functions'])}")
-    for v in r['violations'] or []:
-        print("   VIOL:",v['msg'][:600],"| model=",v['model'],"| dec=",(v['decisions'] or [])[:40], "x",v['count'])
+    for v in (r['violations'] or [])[:int(__import__('os').environ.get('NV','6'))]:
+        print("   VIOL:",v['msg'][:300],"| model=",str(v['model'])[:200],"| dec=",(v['decisions'] or [])[:40], "x",v['count'])
         for l in (v.get('logs') or [])[:30]: print("       log:",l)
     for i in r['inconclusive'] or []:
         print("   INCONCL:",i[:1500])
